@@ -508,17 +508,23 @@ func freshNo(t *Term) (bool, int) {
 	return true, symNo(t.Name)
 }
 
+// symNo: the generation counter of a generated symbol ("prefix!N" possibly followed by a leaf
+// suffix such as "$r"); -1 for entry symbols (no counter).
 func symNo(name string) int {
 	i := strings.LastIndex(name, "!")
 	if i < 0 {
 		return -1
 	}
-	n := 0
+	n, digits := 0, 0
 	for _, c := range name[i+1:] {
 		if c < '0' || c > '9' {
-			return -1
+			break
 		}
 		n = n*10 + int(c-'0')
+		digits++
+	}
+	if digits == 0 {
+		return 1 << 30 // unknown shape: treat as newest (never "older")
 	}
 	return n
 }
